@@ -679,6 +679,53 @@ def check_C18(tier, seed):
         concrete = True
         rep.violation_input("%s (%d failing histories of the global holder; smallest shown)" % (msgs[0][:300], len(gbad)),
                             {"bin": "mac", "case": l, "implementation": o, "clauses": msgs})
+    # ---- ... and under the scheduler: small programs, EVERY schedule the model enumerates for them, each in a fresh
+    # process on the process-wide holder (the free functions are part of the crate's code, not of SingletonHolder: a
+    # read of the state in is_global_default_set / get_global_default that does not go through is_set / get shows here,
+    # e.g. "set" reported inside another thread's initialisation window)
+    gcases = []
+    budget = 2500 if tier == "thorough" else 260
+    for p, m in zip(mprogs, model):
+        if "d" in p or "s" not in p or p.count("/") < 1 or not ("g" in p or "i" in p):
+            continue
+        es = m.partition(" ")[2].split(";")
+        if len(es) > (120 if tier == "thorough" else 40) or any("|!" in e or len(e.split("|")[0]) > 40 for e in es):
+            continue
+        if len(gcases) + len(es) > budget:
+            continue
+        gcases += [(p, e) for e in es]
+    try:
+        gout = common.run_harness("singleton", ["G %s %s" % (p, e.split("|")[0]) for p, e in gcases], shards=common.NCPU)
+    except common.CheckFailure as e:
+        gout = ["HARNESS-PANIC " + str(e)[:200]] * len(gcases)
+    g_bad, g_dis = [], []
+    for (p, e), o in zip(gcases, gout):
+        ie = o.partition(" ")[2] if o.startswith("n=1 ") else o
+        if ie.split("|!")[0] == e and "|!" not in ie:
+            continue
+        try:
+            pr = check_entry(parse_prog(p), ie) if o.startswith("n=1 ") else [("api", "the child process failed: " + o[:200], {})]
+        except Exception as ex:
+            pr = [("api", "observation cannot be decoded: %r" % (ex,), {})]
+        if pr:
+            g_bad.append((len(p) + len(e), p, e, ie, pr))
+        else:
+            g_dis.append((len(p) + len(e), p, e, ie))
+    rep.cov["global_holder_schedules"] = len(gcases)
+    if g_bad and not concrete:
+        _, p, e, ie, pr = sorted(g_bad)[0]
+        concrete = True
+        rep.violation_input("on the process-wide holder (set_global_default / get_global_default / is_global_default_set): %s "
+                            "(%d failing executions; smallest shown)" % (pr[0][1], len(g_bad)),
+                            {"bin": "singleton", "case": "G %s %s" % (p, e.split("|")[0]), "program": p,
+                             "schedule": e.split("|")[0], "implementation": ie, "model": e,
+                             "clauses": [{"kind": k, "what": w, "detail": d} for (k, w, d) in pr]})
+    elif g_dis and not concrete and not structural:
+        _, p, e, ie = sorted(g_dis)[0]
+        rep.violation_noinput(
+            "correspondence Model/Singleton.v <-> the global holder of cadence-macros (free functions of state.rs) broken on "
+            "%d executions; the theorems of Props/C18.v no longer speak about this code" % len(g_dis),
+            {"first_disagreeing_case": {"case": "G %s %s" % (p, e.split("|")[0]), "implementation": ie, "model": e}})
     # ---- the compile-time part of "no data race on the cell": the bounds of the two unsafe impls.  Two programs that
     # share / move a holder of a !Sync / !Send value must be rejected by the compiler (E0277)
     wit = {}
